@@ -8,13 +8,17 @@ def run(chk):
                 'entries; sort date/path/none; replies = end of input, empty, invalid, every single index (one past '
                 'the end included), pairs, 0-1-2 and reversed; all listings the specification allows for the sort '
                 'mode are group members and the observation must be one of them; concrete replies are spelled with '
-                'ranges, blanks, plus signs and leading zeros. non-trivial = restored something or had to fail')
+                'ranges, blanks, plus signs and leading zeros; stage reply-order: two or three entries of which two share one original '
+                'location, replies 0,1 / 1,0 / 0,1,2 under every sort mode: the indices are restored in the order typed. non-trivial = restored something or had to fail')
     chk.assumptions += common.ASSUME
     common.mc(chk)
     common.gen_tt(chk, 'select', 'Init_Many', 'Next_RestoreSel', 6, 3000,
                   strat=lambda g: (g['lab']['sort'], g['lab']['reply']['k'], str(g['lab']['reply'].get('idx')),
                                    g['lab']['from']['k'], g['lab']['from'].get('r'), g['lab']['from'].get('d'),
                                    len(g['allowed'][0]['lab']['listing'])), per_stratum=1, thorough_seeds=1)
+    # the reply is honoured in the order typed: two entries with the same original location, reply '1,0' restores the entry
+    # printed at index 1 and refuses index 0 (its destination is taken by then), not the other way round
+    common.gen_tt(chk, 'reply-order', 'Init_ClobberSame', 'Next_ClobberSame', 13, None, thorough_seeds=2)
     common.fun_laws(chk)
     common.fun_stage(chk, 'replies', 'reply', 400 if chk.tier == 'quick' else 8000)
     common.fun_stage(chk, 'scope-order', 'scope', 150 if chk.tier == 'quick' else 3000)
